@@ -82,6 +82,7 @@ func C18(c *Ctx) int {
 			c.HandleGenCex(o, it, r)
 		}
 	}
+	c.ValidateSamples(o, byName, 4)
 	o.Assumptions = []string{"interleavings are not explored: two instances run one after the other inside one symbolic execution under a memory monitor (every cell read/written, appended to, copied, every map touched); disjoint write/any footprints plus no writes to cells reachable from package-level variables imply, by the Go memory model, that every interleaving is race-free and equivalent to the sequential run — a meta-argument, not machine-checked",
 		"counterexamples are replayed natively with the two instances on two goroutines under go test -race"}
 	o.Outside = []string{"more than two instances; instances of different grammars (distinct packages have distinct package-level state by construction; only the shared reference driver could couple them)"}
